@@ -33,10 +33,31 @@ fn require_dom(d: &Decimal) {
     kani::assume(in_dom(d));
 }
 
+/// v * 10^by with the multiplier a constant on every branch (a symbolic x symbolic 64/128-bit product
+/// bit-blasts into gigabytes; by is almost always concrete after constant propagation anyway).
+#[inline(always)]
+fn scale_up(v: u64, by: u32) -> u64 {
+    match by {
+        0 => v,
+        1 => v * 10,
+        2 => v * 100,
+        3 => v * 1_000,
+        4 => v * 10_000,
+        5 => v * 100_000,
+        6 => v * 1_000_000,
+        7 => v * 10_000_000,
+        8 => v * 100_000_000,
+        _ => {
+            kani::assume(false);
+            v
+        }
+    }
+}
+
 #[inline(always)]
 fn rescale32(v: u32, by: u32) -> u32 {
     // by <= MAX_SCALE_D
-    let r = (v as u64) * (P10[by as usize] as u64);
+    let r = scale_up(v as u64, by);
     kani::assume(r <= u32::MAX as u64);
     r as u32
 }
@@ -225,10 +246,21 @@ pub fn round_dp_with_strategy(d: &Decimal, dp: u32, strategy: RoundingStrategy) 
         }
     }
     let diff = u.scale - dp; // 1..=MAX_SCALE_D
-    let p = P10[diff as usize];
-    let mut q = u.lo / p;
-    let r = u.lo % p;
-    let half = p / 2; // p is a power of ten >= 10, so even
+    // division by a constant on every branch
+    let (mut q, r, half) = match diff {
+        1 => (u.lo / 10, u.lo % 10, 5),
+        2 => (u.lo / 100, u.lo % 100, 50),
+        3 => (u.lo / 1_000, u.lo % 1_000, 500),
+        4 => (u.lo / 10_000, u.lo % 10_000, 5_000),
+        5 => (u.lo / 100_000, u.lo % 100_000, 50_000),
+        6 => (u.lo / 1_000_000, u.lo % 1_000_000, 500_000),
+        7 => (u.lo / 10_000_000, u.lo % 10_000_000, 5_000_000),
+        8 => (u.lo / 100_000_000, u.lo % 100_000_000, 50_000_000),
+        _ => {
+            kani::assume(false);
+            (0, 0, 0)
+        }
+    };
     if r > half || (r == half && (q & 1) == 1) {
         q += 1;
     }
@@ -255,14 +287,16 @@ pub fn cmp_impl(d1: &Decimal, d2: &Decimal) -> Ordering {
     let u1 = d1.unpack();
     let u2 = d2.unpack();
     kani::assume(u1.hi == 0 && u2.hi == 0 && u1.scale <= MAX_SCALE_D && u2.scale <= MAX_SCALE_D);
-    let m1 = ((u1.mid as u128) << 32) | u1.lo as u128;
-    let m2 = ((u2.mid as u128) << 32) | u2.lo as u128;
+    // mantissas below 2^36 so that the aligned values fit 64 bits (10^8 < 2^27)
+    kani::assume(u1.mid < 16 && u2.mid < 16);
+    let m1 = ((u1.mid as u64) << 32) | u1.lo as u64;
+    let m2 = ((u2.mid as u64) << 32) | u2.lo as u64;
     let (a, b) = if u1.scale == u2.scale {
         (m1, m2)
     } else if u1.scale < u2.scale {
-        (m1 * P10[(u2.scale - u1.scale) as usize] as u128, m2)
+        (scale_up(m1, u2.scale - u1.scale), m2)
     } else {
-        (m1, m2 * P10[(u1.scale - u2.scale) as usize] as u128)
+        (m1, scale_up(m2, u1.scale - u2.scale))
     };
     let o = a.cmp(&b);
     if u1.negative {
